@@ -31,6 +31,7 @@ for d in sorted(glob.glob(os.path.join(ROOT, 'seeded', 'C*-[0-9]*')), key=keyf):
     meta = json.load(open(os.path.join(d, 'meta.json')))
     prev = old.get(name, {})
     rr = [(x["check"], x["exit"], x["log"]) for x in prev.get("screening_runs", [])] + [x for x in runs.get(name, [])]
+    seen = set(); rr = [x for x in rr if not (x in seen or seen.add(x))]   # re-reading a log must not duplicate its runs
     caught = sorted({c for c, e, _ in rr if e == 1})
     first = rr[0] if rr else None
     v = {
